@@ -10,6 +10,7 @@ func main() {
 		"sharedpoll": sharedPollMode,
 		"spfree":     sharedPollFreeMode,
 		"trackclose": trackCloseMode,
+		"subclose":   subCloseMode,
 		"mapdelta":   mapDeltaMode,
 	})
 }
